@@ -5,6 +5,7 @@ package main
 
 import (
 	"fmt"
+	"strings"
 	"go/token"
 	"go/types"
 	"sort"
@@ -44,6 +45,7 @@ type G struct {
 	kill      bool
 	canRun    func() bool
 	yieldMark int
+	seenWrites int
 	spins     int
 	vc        VC
 	started   bool
@@ -60,6 +62,7 @@ type Sched struct {
 	syncs    map[cellKey]*syncState
 	clock    int
 	lastRunner int
+	writes   int // state-changing visible operations so far
 }
 
 type cellKey struct {
@@ -100,7 +103,9 @@ func (s *Sched) enabled(g *G) bool {
 	if g.canRun != nil && !g.canRun() {
 		return false
 	}
-	if g.yieldMark >= 0 && s.progress == g.yieldMark {
+	if g.yieldMark >= 0 && s.writes == g.yieldMark {
+		// fairness: a goroutine that called Gosched is not rescheduled until some other goroutine has
+		// changed shared state (its retry could not observe anything new before that)
 		return false
 	}
 	return true
@@ -151,12 +156,17 @@ func (s *Sched) point(kind string) {
 			s.handoff(g, s.gs[pick], false)
 		}
 	}
-	s.step(g)
+	k := 0
+	if strings.HasPrefix(kind, "atomic.") {
+		k = 1
+	}
+	s.step(g, k)
 }
 
 // step records that g performs a visible operation now.
-func (s *Sched) step(g *G) {
-	s.history = append(s.history, g.id)
+func (s *Sched) step(g *G, kind int) {
+	// history entry: goroutine id * 8 + kind (0 other, 1 sync/atomic operation, 2 runtime.Gosched)
+	s.history = append(s.history, g.id*8+kind)
 	s.progress++
 	s.clock++
 	g.yieldMark = -1
@@ -201,8 +211,16 @@ func (s *Sched) yield() {
 	if !s.multi() {
 		return
 	}
-	s.step(g)
-	g.yieldMark = s.progress
+	s.step(g, 2)
+	// fairness: if shared state has changed since this goroutine's previous yield (or its start), one more
+	// retry is meaningful and it stays schedulable; otherwise it is parked until another goroutine changes
+	// shared state (its retry could not observe anything new)
+	if s.writes != g.seenWrites {
+		g.seenWrites = s.writes
+		g.yieldMark = -1
+	} else {
+		g.yieldMark = s.writes
+	}
 	others := s.enabledOthers(g)
 	if len(others) == 0 {
 		g.yieldMark = -1
@@ -276,7 +294,7 @@ func (r *Run) spawn(fr *frame, fn Value, args []Value) {
 		g.started = true
 		r.call(nil, token.NoPos, fn, args)
 		// normal exit
-		s.step(g)
+		s.step(g, 0)
 		g.done = true
 		finished = true
 		others := s.enabledOthers(g)
@@ -515,6 +533,9 @@ func (r *Run) atomicStore(p Ptr, v Value) {
 }
 
 func (r *Run) rawStore(p Ptr, v Value) {
+	if r.sched != nil {
+		r.sched.writes++
+	}
 	if p.obj.pre {
 		r.undo = append(r.undo, undoRec{p.obj, p.off, p.obj.cells[p.off]})
 	}
@@ -574,7 +595,8 @@ func (r *Run) mutexLock(p Ptr) {
 		panic(pathEnd{"deadlock"})
 	}
 	s.block(func() bool { return !st.locked && st.readers == 0 }, "Mutex.Lock")
-	st.locked = true
+	s.writes++
+st.locked = true
 	s.acquire(s.cur, st.clk)
 	s.acquire(s.cur, st.rclk)
 }
@@ -586,6 +608,7 @@ func (r *Run) mutexUnlock(p Ptr) {
 	if !st.locked {
 		r.goPanicFatal("sync: unlock of unlocked mutex")
 	}
+	s.writes++
 	st.locked = false
 	s.release(s.cur, &st.clk)
 }
@@ -608,6 +631,7 @@ func (r *Run) rwRLock(p Ptr) {
 	st := s.sync(p)
 	s.point("RLock")
 	s.block(func() bool { return !st.locked }, "RWMutex.RLock")
+	s.writes++
 	st.readers++
 	s.acquire(s.cur, st.clk)
 }
@@ -619,6 +643,7 @@ func (r *Run) rwRUnlock(p Ptr) {
 	if st.readers <= 0 {
 		r.goPanicFatal("sync: RUnlock of unlocked RWMutex")
 	}
+	s.writes++
 	st.readers--
 	s.releaseJoin(s.cur, &st.rclk)
 }
@@ -634,6 +659,7 @@ func (r *Run) wgAdd(p Ptr, delta *Term) {
 	st := s.sync(p)
 	s.point("WaitGroup.Add")
 	d := int(int64(r.Concretize(r.ctx().Sext(delta, 64), 16, "WaitGroup delta")))
+	s.writes++
 	st.counter += d
 	if st.counter < 0 {
 		r.goPanicRuntimeStr("sync: negative WaitGroup counter")
@@ -701,6 +727,7 @@ func (r *Run) chanSend(fr *frame, ch *ChanObj, v Value) {
 
 func (r *Run) doSend(ch *ChanObj, v Value) {
 	s := r.sched
+	s.writes++
 	if ch.closed {
 		r.goPanicRuntimeStr("send on closed channel")
 	}
@@ -735,6 +762,7 @@ func (r *Run) chanRecv(fr *frame, ch *ChanObj, commaOk bool, elem types.Type) Va
 
 func (r *Run) doRecv(ch *ChanObj, elem types.Type) (Value, bool) {
 	s := r.sched
+	s.writes++
 	g := s.cur
 	if len(ch.buf) > 0 {
 		msg := ch.buf[0]
@@ -761,6 +789,7 @@ func (r *Run) chanClose(fr *frame, ch *ChanObj) {
 	if ch.closed {
 		r.goPanicRuntimeStr("close of closed channel")
 	}
+	s.writes++
 	ch.closed = true
 	s.release(s.cur, &ch.closeClk)
 }
